@@ -234,7 +234,15 @@ pub fn c10(thorough: bool) -> Vec<Part> {
         let nact = if thorough { 3 } else { 2 };
         for j in 0..nact {
             let idx = 1 + fill + j;
-            let mut a = ClientCfg::adversary(vec![tagged_get(idx, 0)]);
+            // the second active client pipelines a valid request with garbage in one segment
+            let script = if j == 1 {
+                let mut v = tagged_get(idx, 0);
+                v.extend_from_slice(b"BAD LINE\r\n");
+                vec![v]
+            } else {
+                vec![tagged_get(idx, 0)]
+            };
+            let mut a = ClientCfg::adversary(script);
             a.reads = true;
             a.can_shut_rd = false;
             a.can_shut_wr = false;
@@ -246,6 +254,25 @@ pub fn c10(thorough: bool) -> Vec<Part> {
         cfg.orders = if fill == 9 { Orders::Full } else { Orders::AscRev };
         cfg.max_outstanding_for_respond = 2;
         cfgs.push(cfg);
+    }
+    {
+        // connections that die while a response is staged (short write under a minimal SO_SNDBUF)
+        let mut clients = vec![];
+        let mut est = ClientCfg::well_behaved(vec![tagged_get(0, 0)]);
+        est.preconnected = true;
+        clients.push(est);
+        for c in 1..3 {
+            let mut a = ClientCfg::adversary(vec![tagged_get(c, 0)]);
+            a.reads = c == 1;
+            a.can_shut_wr = false;
+            clients.push(a);
+        }
+        let mut cfg = SrvCfg::base("C10", "connections dying with a partially written 12 KiB response (small SO_SNDBUF): close / shutdown(RD) at any time", clients);
+        cfg.resp_sizes = vec![12000];
+        cfg.small_sndbuf = true;
+        cfg.release_check = true;
+        cfg.max_outstanding_for_respond = 2;
+        explore_req(&mut part, &cfg, if thorough { 2_000_000 } else { 300_000 }, if thorough { 1200.0 } else { 100.0 }, &["response_needed_several_writes(short_write)", "client_shutdown_rd", "respond_after_client_closed"]);
     }
     for cfg in cfgs {
         let req: &[&str] = if cfg.label.starts_with("10 established") {
